@@ -105,7 +105,12 @@
     "eval-quote" (fn [mk n] (type (eval ['quote (mk n)])))
     "compile-lit" (fn [mk n] (let [r (compile (mk n))] (if (table? r) (error (r :error)) r)))
     "get-missing" (fn [mk n] (get (mk n) :missing))
-    "get-deepest" (fn [mk n] (get (mk n) :z))
+    # :z lives in the last prototype: lookups give up after JANET_MAX_PROTO_DEPTH links (reported as an error here
+    # so that the limit shows up as a boundary of the sweep)
+    "get-deepest" (fn [mk n] (let [x (mk n) v (get x :z)]
+                               (if (and (nil? v) (or (and (table? x) (table/getproto x)) (and (struct? x) (struct/getproto x))))
+                                 (error "key of the deepest prototype not found")
+                                 v)))
     "keys" (fn [mk n] (let [x (mk n)] (if (or (function? x) (fiber? x)) 0 (length (keys x)))))
     "call" (fn [mk n] (let [x (mk n)] (if (function? x) (type (x)) 0)))
     "method" (fn [mk n] (let [x (mk n)] (if (table? x) (:missing x) 0)))})
@@ -226,15 +231,13 @@
     "cond-wide" (fn [n] (wide 'cond (* 2 n)))
     "case-wide" (fn [n] (wide 'case (+ 1 (* 2 n))))
     "thread-wide" (fn [n] (def a @['-> 1]) (for i 0 n (array/push a '(+ 1))) (tuple/slice a))
-    "plus-wide" (fn [n] (wide '+ n))
-    "string-wide" (fn [n] (wide 'string n))
     "do-wide" (fn [n] (wide 'do n))})
 (def form-shape-names
   ["call" "callhead" "do" "if-cond" "if-then" "if-else" "fn" "fn-closure" "while-body" "while-cond" "def-value" "var-set"
    "upscope" "break" "splice" "quote" "quasi" "quasi-unquote" "quasi-arr" "quasi-tab" "quasi-st" "btuple-lit" "array-lit"
    "table-lit" "table-lit-key" "struct-lit" "def-destructure" "def-destructure-st" "var-destructure"
    "def-destructure-both" "fn-param-destructure" "let" "when" "if-let" "try" "short-fn" "match" "each-destructure"
-   "and-wide" "or-wide" "cond-wide" "case-wide" "thread-wide" "plus-wide" "string-wide" "do-wide"])
+   "and-wide" "or-wide" "cond-wide" "case-wide" "thread-wide" "do-wide"])
 
 (defn compile-or-cerr [form env]
   (def r (compile form env))
